@@ -126,7 +126,7 @@ PROPS["C19"] = {
 }
 
 PROPS["C18"] = {
-    "level_text": "Theorem over EVERY interleaving of Start/Inc/Done with ticks of live or stale ticker goroutines: phases in order, counts non-decreasing within a phase, nothing after a phase's final line, final line = number of Inc() calls of that phase. Observed histories of the real progressMeter (periods 1us-3ms, random delays) are validated as histories of the model; the end-to-end engine checks stdout is unchanged by --progress and the final counts equal the census. `one_inc_per_object` over the REGENERATED statement list of sizes.ScanRepositoryUsingGraph (six Start/loop/Done brackets, one Inc() per processed object in the same straight-line block, no continue, every return in a phase an error) ties #Inc of a phase to the number of objects processed. `Pins.Meter.ticker_protocol` (REGENERATED statements of meter/meter.go): the ticker goroutine's identity test under the lock, Done's final print under the same lock.",
+    "level_text": "Theorem over EVERY interleaving of Start/Inc/Done with ticks of live or stale ticker goroutines: phases in order, counts non-decreasing within a phase, nothing after a phase's final line, final line = number of Inc() calls of that phase. Observed histories of the real progressMeter (periods 1us-3ms, random delays) are validated as histories of the model; the end-to-end engine checks stdout is unchanged by --progress and the final counts equal the census. `one_inc_per_object` over the REGENERATED statement list of sizes.ScanRepositoryUsingGraph (six Start/loop/Done brackets, one Inc() per processed object in the same straight-line block, no continue, every return in a phase an error) ties #Inc of a phase to the number of objects processed. `Pins.Meter.ticker_protocol` (REGENERATED statements of meter/meter.go): the ticker goroutine's identity test under the lock, Done's final print under the same lock. `meter_lock_discipline`: the ticker's print and Done's final print both run under p.lock (a tick line cannot follow the final line).",
     "level_note": "Partial: the real timer, scheduler and Go memory model are not modelled (the model's atomic steps are the critical sections delimited by the mutex and the atomics); trace validation is sampling.",
     "technique": "Lean 4 proof (invariant over all interleavings) + trace validation against the real meter",
     "modules": ["GitSizer.Props.C18", "GitSizer.Props.Pins.Meter"],
@@ -176,7 +176,7 @@ PROPS["C14"] = {
     "assumptions": [],
 }
 PROPS["C17"] = {
-    "level_text": "Theorems over the REGENERATED call-site table: only read-only plumbing (rev-parse, config --list/--get, for-each-ref, rev-list, cat-file) is ever run, no other process is spawned, the only file-creating call is the hidden --cpuprofile; census totals are permutation-invariant. Exploration on the real binary: three runs per repository (GOMAXPROCS 1/16/4, --progress and --no-progress; table, JSON v1, JSON v2) with byte-identical stdout; SHA-1 of the entire repository directory (objects, refs, config, work tree, modes) identical before and after; a second pass of the same engine runs a -race build of the binary (both tiers) and fails on any race report. Over the REGENERATED statement list of the scan driver: `feeders_only_feed` (the two feeder goroutines' statements verbatim: they never touch graph, resolver or meter — single consumer) and `shared_slices_frozen_after_fork`.",
+    "level_text": "Theorems over the REGENERATED call-site table: only read-only plumbing (rev-parse, config --list/--get, for-each-ref, rev-list, cat-file) is ever run, no other process is spawned, the only file-creating call is the hidden --cpuprofile; census totals are permutation-invariant. Exploration on the real binary: three runs per repository (GOMAXPROCS 1/16/4, --progress and --no-progress; table, JSON v1, JSON v2) with byte-identical stdout; SHA-1 of the entire repository directory (objects, refs, config, work tree, modes) identical before and after; a second pass of the same engine runs a -race build of the binary (both tiers) and fails on any race report. Over the REGENERATED statement list of the scan driver: `feeders_only_feed` (the two feeder goroutines' statements verbatim: they never touch graph, resolver or meter — single consumer) and `shared_slices_frozen_after_fork`. `Pins.Meter.meter_lock_discipline` (regenerated classification of meter/meter.go's statements): every access to the meter's shared fields runs under p.lock, p.count only through sync/atomic.",
     "level_note": "Partial: data-race freedom and schedule-independence of the real goroutines cannot be expressed in the model; they are sampled (race detector on generated repositories, incl. scans that reach no tree or no commit at all).",
     "technique": "Lean 4 proof over regenerated tables (decide) + repeated-run exploration with directory hashing",
     "modules": ["GitSizer.Props.C17"],
@@ -206,6 +206,7 @@ _SRC_PINS = {
     "C15": ["Gitconfig"],
     "C16": ["Oid"],
     "C17": ["ObjIter", "BatchObjIter", "RefIter"],
+    # (C17 also lists Props.Pins.Meter below: the meter's lock discipline)
     "C18": ["MainFile"],
     "C19": ["Output", "Oid"],
 }
@@ -221,3 +222,4 @@ for _p, _ms in {
     _SRC_PINS[_p] = _SRC_PINS.get(_p, []) + _ms
 for _p, _ms in _SRC_PINS.items():
     PROPS[_p]["modules"] = PROPS[_p]["modules"] + ["GitSizer.Props.Pins.Src." + _m for _m in _ms]
+PROPS["C17"]["modules"] = PROPS["C17"]["modules"] + ["GitSizer.Props.Pins.Meter"]
